@@ -102,7 +102,11 @@ def run_memsafe(ctx, crate, imports, floors, extra_rows=None, niche_assumptions=
     ctx.count("instances on the parse path", len(cl))
     imported = {}
     for pid in imports:
-        imported[pid] = ctx.import_prop(pid)[0]
+        if isinstance(pid, tuple):
+            pid, only, label = pid
+            imported[pid] = ctx.import_prop(pid, only=only, label=label)[0]
+        else:
+            imported[pid] = ctx.import_prop(pid)[0]
     n_sites = 0
     unmatched = []
     for k in cl:
